@@ -85,11 +85,12 @@ fn evaluate(g: &Graph, ng: &lightning::routing::gossip::NetworkGraph<build::Nop>
 					"exact-fit-within-rounding-margin-of-a-limit".to_string()
 				} else {
 					format!(
-						"slack/{}/{}/{}{}",
+						"slack/{}/{}/{}{}{}",
 						mode,
 						slug(e),
 						if q.scorer == Scorer::Fixed(0) { "zero-penalty-scorer" } else { "penalising-scorer" },
-						if q.sat_pow != 0 { "/saturation-share-set" } else { "" }
+						if q.sat_pow != 0 { "/saturation-share-set" } else { "" },
+						if q.max_len < 19 { "/path-length-limit-set" } else { "" }
 					)
 				};
 				fired.push(Fired {
@@ -541,6 +542,12 @@ fn main() {
 			"final_cltv": FINAL_CLTV,
 		}),
 	);
+	{
+		let k = build::keys();
+		let mut order: Vec<usize> = (0..4).collect();
+		order.sort_by_key(|i| k.node_id[*i]);
+		ev.set("node_indices_in_node_id_order", json!(order));
+	}
 	for s in &total.samples {
 		ev.sample(s.clone(), 6);
 	}
